@@ -30,6 +30,16 @@ export function loadKnownFindings() {
   return JSON.parse(fs.readFileSync(p, "utf8")).findings || [];
 }
 
+// which input failed, as far as the recorded detail tells: the type (with the rewrite / mode / layout that was
+// applied to it); null when the detail names no type (operation histories carry their identity in the key)
+function defaultCaseId(d) {
+  if (!d || typeof d !== "object") return null;
+  const t = d.type ?? d.layout ?? null;
+  if (t == null) return null;
+  const ctx = [d.rewrite, d.mode, d.style, d.setting, d.options].filter((x) => typeof x === "string");
+  return (ctx.length ? ctx.join("/") + " | " : "") + t;
+}
+
 export class Reporter {
   constructor(property) {
     this.property = property;
@@ -47,6 +57,12 @@ export class Reporter {
       this.byKey.set(key, e);
     }
     e.count++;
+    // identity of the failing input below the key (a known finding is pinned to the inputs recorded for it)
+    const cid = opts.caseId ?? defaultCaseId(detail);
+    if (cid != null && !e.noCases) {
+      e.caseSet ??= new Set();
+      if (e.caseSet.size < 20000) e.caseSet.add(cid);
+    } else e.noCases = true;
     if (e.values && opts.valueSrc !== undefined) e.values.set(opts.valueSrc, opts.valueKind ?? "?");
     const size = JSON.stringify(detail).length;
     if (size < e.size) {
@@ -58,6 +74,7 @@ export class Reporter {
   finalKeys() {
     const out = new Map();
     for (const e of this.byKey.values()) {
+      if (e.caseSet && !e.noCases && !e.cases) e.cases = [...e.caseSet].sort();
       if (e.values) {
         const srcs = [...e.values.keys()].sort();
         const suffix = srcs.length <= 3 && srcs.every((s) => s.length <= 24) ? srcs.join(", ") : "kinds:" + [...new Set(e.values.values())].sort().join(",");
